@@ -451,3 +451,42 @@ type typeArgStripper struct{}
 func (typeArgStripper) ReplaceAllString(s, _ string) string { return stripTypeArgs(s) }
 
 var typeArgs typeArgStripper
+
+// gGlobalStores: every direct store to a package-level variable of the repository (package initialisers included).
+var gGlobalStores map[*ssa.Global][]*ssa.Store
+
+// gGlobalEscapes: package-level variables whose address is used other than for a direct load or store.
+var gGlobalEscapes map[*ssa.Global]bool
+
+// sentinelError: v is a load of a package-level error variable that is assigned exactly once, by its package
+// initialiser, from errors.New / fmt.Errorf (`var errX = errors.New("...")`), and whose address is not taken: it
+// cannot be nil.
+func sentinelError(v ssa.Value) bool {
+	u, ok := v.(*ssa.UnOp)
+	if !ok || u.Op != token.MUL {
+		return false
+	}
+	g, ok := u.X.(*ssa.Global)
+	if !ok || len(gGlobalStores[g]) != 1 {
+		return false
+	}
+	st := gGlobalStores[g][0]
+	if st.Parent() == nil || st.Parent().Synthetic == "" || st.Parent().Name() != "init" {
+		return false
+	}
+	val := stripIface(st.Val)
+	if call, ok := val.(*ssa.Call); ok {
+		switch calleeName(&call.Call) {
+		case "errors.New", "fmt.Errorf":
+		default:
+			return false
+		}
+	} else if _, isMI := st.Val.(*ssa.MakeInterface); !isMI {
+		return false
+	}
+	// the address must not escape (another function could then store nil through it)
+	if gGlobalEscapes[g] {
+		return false
+	}
+	return true
+}
